@@ -17,6 +17,7 @@ Inductive ty :=
 | TList (t: ty) | TSet (t: ty)
 | TWrap (t: ty)                 (* unwrap-and-redispatch wrappers: Final[t], NewType(.., t), Required/NotRequired/ReadOnly[t] *)
 | TDict (v: ty)                 (* Dict[str, v] *)
+| TMap (k v: ty)                (* Dict / Mapping / OrderedDict / DefaultDict[k, v]; Counter[k] = TMap k int; ChainMap = list of it *)
 | TTuple (ts: list ty)          (* Tuple[t1, .., tn]; [] is Tuple[()] *)
 | TUnion (ts: list ty)          (* Union[...] / Optional[...] as flattened by typing *)
 | TClass (c: string)            (* a dataclass of the class table *)
@@ -30,7 +31,12 @@ Inductive ty :=
                                 (* Enum (member values) / Literal (lit = true: one value gives "const") *)
 | TTyped (names: list string) (ts: list ty) (req: list bool)
                                 (* TypedDict: keys, value types, key is required *)
-| TOpaque (n: string).          (* a third-party class: no schema creator applies (NotImplementedError) unless its
+| TOpaque (n: string)
+| TAnn (cs: list ann) (t: ty)   (* Annotated[t, constraints]: the constraints that fit the kind of t are set, the others ignored *)
+with ann :=
+| ANum (k: annkw) (z: Z) | APattern (p: string) | AUnique (b: bool)
+with annkw :=
+| AMaximum | AMinimum | AExMax | AExMin | AMultipleOf | AMinLength | AMaxLength | AMinItems | AMaxItems | AMinProps | AMaxProps.          (* a third-party class: no schema creator applies (NotImplementedError) unless its
                                    serialization is overridden by a strategy *)
 
 (* one init-field of a dataclass: key used in "properties" (alias or name), type,
@@ -106,10 +112,23 @@ Definition apply_ov (o: option ov) (t: ty) : option ty :=   (* None: no replacem
   | Some (ORet None) => Some TAny
   | _ => None
   end.
+(* /repo fcaa28c: the lookup keys are those of the serializer: (the Annotated form as written -- not modelled,) the type,
+   then its ORIGIN class; for each key all sources in order.  A parametrised container has no key of its own here, only its
+   origin: List[..] -> list, Dict[..] -> dict (other spellings of the same schema -- Sequence, Deque, Tuple[T, ...],
+   Mapping, OrderedDict, Counter, ChainMap -- have other origins; the correspondence registers only list / dict and then
+   spells these types List / Dict) *)
+Definition okey (t: ty) : option string :=
+  match t with
+  | TList _ => Some "list"
+  | TDict _ | TMap _ _ => Some "dict"
+  | _ => None
+  end.
 Definition table_ov (dial conf: list (string * ov)) (t: ty) : option ov :=
   match tykey t with
   | Some k => first_ser [lookup k dial; lookup k conf]
-  | None => None
+  | None => match okey t with
+            | Some k => first_ser [lookup k dial; lookup k conf]
+            | None => None end
   end.
 (* every position below a field (not inside another dataclass: the owner changes there) *)
 Fixpoint resolve_ty (dial conf: list (string * ov)) (t: ty) {struct t} : ty :=
@@ -121,6 +140,8 @@ Fixpoint resolve_ty (dial conf: list (string * ov)) (t: ty) {struct t} : ty :=
     | TSet a => TSet (resolve_ty dial conf a)
     | TWrap a => TWrap (resolve_ty dial conf a)
     | TDict a => TDict (resolve_ty dial conf a)
+    | TMap k a => TMap (resolve_ty dial conf k) (resolve_ty dial conf a)
+    | TAnn cs a => TAnn cs (resolve_ty dial conf a)
     | TTuple ts => TTuple (map (resolve_ty dial conf) ts)
     | TUnion ts => TUnion (map (resolve_ty dial conf) ts)
     | TNamed a n ts d => TNamed a n (map (resolve_ty dial conf) ts) d
@@ -131,16 +152,22 @@ Fixpoint resolve_ty (dial conf: list (string * ov)) (t: ty) {struct t} : ty :=
 Definition resolve_field (dial conf: list (string * ov)) (r: rfld) : ty :=
   match first_ser [r.(r_ser); r.(r_strat)] with
   | Some OPass => r.(r_ty)        (* pass_through from the field: every derived position sees it again; no table lookup *)
-  | Some o => match apply_ov (Some o) r.(r_ty) with Some t' => t' | None => resolve_ty dial conf r.(r_ty) end
+  | Some o => match apply_ov (Some o) r.(r_ty) with
+              | Some t' => match r.(r_ty) with
+                           | TAnn cs _ => if r.(r_final) then t' else TAnn cs t'
+                             (* the constraints stay on the instance; under Final[Annotated[..]] the field instance never saw them *)
+                           | _ => t' end
+              | None => resolve_ty dial conf r.(r_ty) end
   | None => resolve_ty dial conf r.(r_ty)
   end.
 
 (* CodeBuilder.is_field_nullable for a field without default: Annotated / Final are looked through (Final is the
    field flag, Annotated carries only aliases here), then Any / None / a Union with a None member; a NewType is not *)
-Definition nullable_ty (t: ty) : bool :=
+Fixpoint nullable_ty (t: ty) : bool :=
   match t with
   | TAny | TNone => true
   | TUnion ts => existsb (fun x => match x with TNone => true | _ => false end) ts
+  | TAnn _ a => nullable_ty a
   | _ => false
   end.
 
@@ -174,11 +201,13 @@ Record sk := mk_sk {
   k_title: option string; k_description: option string;
   k_anyOf: option (list js); k_ref: option string; k_defs: option defs;
   k_default: option js; k_props: option (list (string * js)); k_addl: option js;
-  k_pnames: option js; k_prefix: option (list js); k_items: option js; k_pattern: option string;
-  k_maxItems: option Z; k_minItems: option Z; k_unique: option bool;
+  k_pnames: option js; k_prefix: option (list js); k_items: option js;
+  k_multipleOf: option Z; k_maximum: option Z; k_exMax: option Z; k_minimum: option Z; k_exMin: option Z;
+  k_maxLength: option Z; k_minLength: option Z; k_pattern: option string;
+  k_maxItems: option Z; k_minItems: option Z; k_unique: option bool; k_maxProps: option Z; k_minProps: option Z;
   k_required: option (list string) }.
 
-Definition sk0 : sk := mk_sk None None None None None None None None None None None None None None None None None None None None None.
+Definition sk0 : sk := mk_sk None None None None None None None None None None None None None None None None None None None None None None None None None None None None None None.
 
 Definition optkv {A} (k: string) (f: A -> js) (o: option A) : list (string * js) :=
   match o with Some a => [(k, f a)] | None => [] end.
@@ -191,54 +220,59 @@ Definition render (r: sk) : js :=
         ++ optkv "default" (fun d => d) r.(k_default) ++ optkv "properties" JObj r.(k_props)
         ++ optkv "additionalProperties" (fun d => d) r.(k_addl) ++ optkv "propertyNames" (fun d => d) r.(k_pnames)
         ++ optkv "prefixItems" JArr r.(k_prefix) ++ optkv "items" (fun d => d) r.(k_items)
+        ++ optkv "multipleOf" JInt r.(k_multipleOf) ++ optkv "maximum" JInt r.(k_maximum)
+        ++ optkv "exclusiveMaximum" JInt r.(k_exMax) ++ optkv "minimum" JInt r.(k_minimum)
+        ++ optkv "exclusiveMinimum" JInt r.(k_exMin)
+        ++ optkv "maxLength" JInt r.(k_maxLength) ++ optkv "minLength" JInt r.(k_minLength)
         ++ optkv "pattern" JStr r.(k_pattern)
         ++ optkv "maxItems" JInt r.(k_maxItems) ++ optkv "minItems" JInt r.(k_minItems)
         ++ optkv "uniqueItems" JBool r.(k_unique)
+        ++ optkv "maxProperties" JInt r.(k_maxProps) ++ optkv "minProperties" JInt r.(k_minProps)
         ++ optkv "required" (fun l => JArr (map JStr l)) r.(k_required))%list.
 
 Definition set_type (s: sk) (t: string) : sk :=
-  mk_sk s.(k_schema) (Some t) s.(k_enum) s.(k_const) s.(k_format) s.(k_title) s.(k_description) s.(k_anyOf) s.(k_ref) s.(k_defs) s.(k_default) s.(k_props) s.(k_addl) s.(k_pnames) s.(k_prefix) s.(k_items) s.(k_pattern) s.(k_maxItems) s.(k_minItems) s.(k_unique) s.(k_required).
+  mk_sk s.(k_schema) (Some t) s.(k_enum) s.(k_const) s.(k_format) s.(k_title) s.(k_description) s.(k_anyOf) s.(k_ref) s.(k_defs) s.(k_default) s.(k_props) s.(k_addl) s.(k_pnames) s.(k_prefix) s.(k_items) s.(k_multipleOf) s.(k_maximum) s.(k_exMax) s.(k_minimum) s.(k_exMin) s.(k_maxLength) s.(k_minLength) s.(k_pattern) s.(k_maxItems) s.(k_minItems) s.(k_unique) s.(k_maxProps) s.(k_minProps) s.(k_required).
 Definition set_default (s: sk) (d: option js) : sk :=
   match d with
   | None => s
   | Some _ =>
-    mk_sk s.(k_schema) s.(k_type) s.(k_enum) s.(k_const) s.(k_format) s.(k_title) s.(k_description) s.(k_anyOf) s.(k_ref) s.(k_defs) d s.(k_props) s.(k_addl) s.(k_pnames) s.(k_prefix) s.(k_items) s.(k_pattern) s.(k_maxItems) s.(k_minItems) s.(k_unique) s.(k_required)
+    mk_sk s.(k_schema) s.(k_type) s.(k_enum) s.(k_const) s.(k_format) s.(k_title) s.(k_description) s.(k_anyOf) s.(k_ref) s.(k_defs) d s.(k_props) s.(k_addl) s.(k_pnames) s.(k_prefix) s.(k_items) s.(k_multipleOf) s.(k_maximum) s.(k_exMax) s.(k_minimum) s.(k_exMin) s.(k_maxLength) s.(k_minLength) s.(k_pattern) s.(k_maxItems) s.(k_minItems) s.(k_unique) s.(k_maxProps) s.(k_minProps) s.(k_required)
   end.
 (* description = f_instance.metadata.get("description"); if description: f_schema.description = description *)
 Definition set_description (s: sk) (d: option string) : sk :=
   match d with
   | None | Some EmptyString => s
   | Some _ =>
-    mk_sk s.(k_schema) s.(k_type) s.(k_enum) s.(k_const) s.(k_format) s.(k_title) d s.(k_anyOf) s.(k_ref) s.(k_defs) s.(k_default) s.(k_props) s.(k_addl) s.(k_pnames) s.(k_prefix) s.(k_items) s.(k_pattern) s.(k_maxItems) s.(k_minItems) s.(k_unique) s.(k_required)
+    mk_sk s.(k_schema) s.(k_type) s.(k_enum) s.(k_const) s.(k_format) s.(k_title) d s.(k_anyOf) s.(k_ref) s.(k_defs) s.(k_default) s.(k_props) s.(k_addl) s.(k_pnames) s.(k_prefix) s.(k_items) s.(k_multipleOf) s.(k_maximum) s.(k_exMax) s.(k_minimum) s.(k_exMin) s.(k_maxLength) s.(k_minLength) s.(k_pattern) s.(k_maxItems) s.(k_minItems) s.(k_unique) s.(k_maxProps) s.(k_minProps) s.(k_required)
   end.
 Definition set_defs (s: sk) (d: defs) : sk :=
-  mk_sk s.(k_schema) s.(k_type) s.(k_enum) s.(k_const) s.(k_format) s.(k_title) s.(k_description) s.(k_anyOf) s.(k_ref) (Some d) s.(k_default) s.(k_props) s.(k_addl) s.(k_pnames) s.(k_prefix) s.(k_items) s.(k_pattern) s.(k_maxItems) s.(k_minItems) s.(k_unique) s.(k_required).
+  mk_sk s.(k_schema) s.(k_type) s.(k_enum) s.(k_const) s.(k_format) s.(k_title) s.(k_description) s.(k_anyOf) s.(k_ref) (Some d) s.(k_default) s.(k_props) s.(k_addl) s.(k_pnames) s.(k_prefix) s.(k_items) s.(k_multipleOf) s.(k_maximum) s.(k_exMax) s.(k_minimum) s.(k_exMin) s.(k_maxLength) s.(k_minLength) s.(k_pattern) s.(k_maxItems) s.(k_minItems) s.(k_unique) s.(k_maxProps) s.(k_minProps) s.(k_required).
 Definition set_schema (s: sk) (u: string) : sk :=
-  mk_sk (Some u) s.(k_type) s.(k_enum) s.(k_const) s.(k_format) s.(k_title) s.(k_description) s.(k_anyOf) s.(k_ref) s.(k_defs) s.(k_default) s.(k_props) s.(k_addl) s.(k_pnames) s.(k_prefix) s.(k_items) s.(k_pattern) s.(k_maxItems) s.(k_minItems) s.(k_unique) s.(k_required).
+  mk_sk (Some u) s.(k_type) s.(k_enum) s.(k_const) s.(k_format) s.(k_title) s.(k_description) s.(k_anyOf) s.(k_ref) s.(k_defs) s.(k_default) s.(k_props) s.(k_addl) s.(k_pnames) s.(k_prefix) s.(k_items) s.(k_multipleOf) s.(k_maximum) s.(k_exMax) s.(k_minimum) s.(k_exMin) s.(k_maxLength) s.(k_minLength) s.(k_pattern) s.(k_maxItems) s.(k_minItems) s.(k_unique) s.(k_maxProps) s.(k_minProps) s.(k_required).
 
 Definition ty_sk (t: string) : sk := set_type sk0 t.
 Definition leaf_sk (t: string) (fmt pat: option string) : sk :=
-  mk_sk None (Some t) None None fmt None None None None None None None None None None None pat None None None None.
+  mk_sk None (Some t) None None fmt None None None None None None None None None None None None None None None None None None pat None None None None None None.
 (* Enum: enum = member values; Literal: const for one value, else enum *)
 Definition enum_sk (lit: bool) (vals: list js) : sk :=
   match lit, vals with
-  | true, [v] => mk_sk None None None (Some v) None None None None None None None None None None None None None None None None None
-  | _, _ => mk_sk None None (Some vals) None None None None None None None None None None None None None None None None None None
+  | true, [v] => mk_sk None None None (Some v) None None None None None None None None None None None None None None None None None None None None None None None None None None
+  | _, _ => mk_sk None None (Some vals) None None None None None None None None None None None None None None None None None None None None None None None None None None None
   end.
 Definition arr_sk (items: option js) (unique: option bool) : sk :=
-  mk_sk None (Some "array") None None None None None None None None None None None None None items None None None unique None.
+  mk_sk None (Some "array") None None None None None None None None None None None None None items None None None None None None None None None None unique None None None.
 Definition tuple_sk (prefix: list js) : sk :=
   match prefix with
-  | [] => mk_sk None (Some "array") None None None None None None None None None None None None None None None (Some 0%Z) None None None
+  | [] => mk_sk None (Some "array") None None None None None None None None None None None None None None None None None None None None None None (Some 0%Z) None None None None None
   | _ => let n := Z.of_nat (List.length prefix) in
-         mk_sk None (Some "array") None None None None None None None None None None None None (Some prefix) None None (Some n) (Some n) None None
+         mk_sk None (Some "array") None None None None None None None None None None None None (Some prefix) None None None None None None None None None (Some n) (Some n) None None None None
   end.
-Definition dict_sk (addl: option js) : sk :=
-  mk_sk None (Some "object") None None None None None None None None None None addl (Some (render (ty_sk "string"))) None None None None None None None.
+Definition dict_sk (addl pn: option js) : sk :=
+  mk_sk None (Some "object") None None None None None None None None None None addl pn None None None None None None None None None None None None None None None None.
 Definition union_sk (l: list js) : sk :=
-  mk_sk None None None None None None None (Some l) None None None None None None None None None None None None None.
+  mk_sk None None None None None None None (Some l) None None None None None None None None None None None None None None None None None None None None None None.
 Definition ref_sk (r: string) : sk :=
-  mk_sk None None None None None None None None (Some r) None None None None None None None None None None None None.
+  mk_sk None None None None None None None None (Some r) None None None None None None None None None None None None None None None None None None None None None.
 (* NamedTuple, list form: JSONArraySchema(prefixItems=items or None, maxItems=n or None, minItems=n or None) *)
 Definition ntuple_sk (prefix: list js) : sk :=
   match prefix with
@@ -247,11 +281,76 @@ Definition ntuple_sk (prefix: list js) : sk :=
   end.
 (* NamedTuple, dict form: JSONObjectSchema(properties=props or None, required=list(fields), additionalProperties=False) *)
 Definition ntobj_sk (props: list (string * js)) (req: list string) : sk :=
-  mk_sk None (Some "object") None None None None None None None None None (match props with [] => None | _ => Some props end) (Some (JBool false)) None None None None None None None (Some req).
+  mk_sk None (Some "object") None None None None None None None None None (match props with [] => None | _ => Some props end) (Some (JBool false)) None None None None None None None None None None None None None None None None (Some req).
 
 (* dataclass (title = class name) and TypedDict (no title): properties or None, additionalProperties False, required or None *)
 Definition obj_sk (title: option string) (props: list (string * js)) (req: list string) : sk :=
-  mk_sk None (Some "object") None None None title None None None None None (match props with [] => None | _ => Some props end) (Some (JBool false)) None None None None None None None (match req with [] => None | _ => Some req end).
+  mk_sk None (Some "object") None None None title None None None None None (match props with [] => None | _ => Some props end) (Some (JBool false)) None None None None None None None None None None None None None None None None (match req with [] => None | _ => Some req end).
+
+Definition setn_multipleOf (s: sk) (z: Z) : sk :=
+  mk_sk s.(k_schema) s.(k_type) s.(k_enum) s.(k_const) s.(k_format) s.(k_title) s.(k_description) s.(k_anyOf) s.(k_ref) s.(k_defs) s.(k_default) s.(k_props) s.(k_addl) s.(k_pnames) s.(k_prefix) s.(k_items) (Some z) s.(k_maximum) s.(k_exMax) s.(k_minimum) s.(k_exMin) s.(k_maxLength) s.(k_minLength) s.(k_pattern) s.(k_maxItems) s.(k_minItems) s.(k_unique) s.(k_maxProps) s.(k_minProps) s.(k_required).
+Definition setn_maximum (s: sk) (z: Z) : sk :=
+  mk_sk s.(k_schema) s.(k_type) s.(k_enum) s.(k_const) s.(k_format) s.(k_title) s.(k_description) s.(k_anyOf) s.(k_ref) s.(k_defs) s.(k_default) s.(k_props) s.(k_addl) s.(k_pnames) s.(k_prefix) s.(k_items) s.(k_multipleOf) (Some z) s.(k_exMax) s.(k_minimum) s.(k_exMin) s.(k_maxLength) s.(k_minLength) s.(k_pattern) s.(k_maxItems) s.(k_minItems) s.(k_unique) s.(k_maxProps) s.(k_minProps) s.(k_required).
+Definition setn_exMax (s: sk) (z: Z) : sk :=
+  mk_sk s.(k_schema) s.(k_type) s.(k_enum) s.(k_const) s.(k_format) s.(k_title) s.(k_description) s.(k_anyOf) s.(k_ref) s.(k_defs) s.(k_default) s.(k_props) s.(k_addl) s.(k_pnames) s.(k_prefix) s.(k_items) s.(k_multipleOf) s.(k_maximum) (Some z) s.(k_minimum) s.(k_exMin) s.(k_maxLength) s.(k_minLength) s.(k_pattern) s.(k_maxItems) s.(k_minItems) s.(k_unique) s.(k_maxProps) s.(k_minProps) s.(k_required).
+Definition setn_minimum (s: sk) (z: Z) : sk :=
+  mk_sk s.(k_schema) s.(k_type) s.(k_enum) s.(k_const) s.(k_format) s.(k_title) s.(k_description) s.(k_anyOf) s.(k_ref) s.(k_defs) s.(k_default) s.(k_props) s.(k_addl) s.(k_pnames) s.(k_prefix) s.(k_items) s.(k_multipleOf) s.(k_maximum) s.(k_exMax) (Some z) s.(k_exMin) s.(k_maxLength) s.(k_minLength) s.(k_pattern) s.(k_maxItems) s.(k_minItems) s.(k_unique) s.(k_maxProps) s.(k_minProps) s.(k_required).
+Definition setn_exMin (s: sk) (z: Z) : sk :=
+  mk_sk s.(k_schema) s.(k_type) s.(k_enum) s.(k_const) s.(k_format) s.(k_title) s.(k_description) s.(k_anyOf) s.(k_ref) s.(k_defs) s.(k_default) s.(k_props) s.(k_addl) s.(k_pnames) s.(k_prefix) s.(k_items) s.(k_multipleOf) s.(k_maximum) s.(k_exMax) s.(k_minimum) (Some z) s.(k_maxLength) s.(k_minLength) s.(k_pattern) s.(k_maxItems) s.(k_minItems) s.(k_unique) s.(k_maxProps) s.(k_minProps) s.(k_required).
+Definition setn_maxLength (s: sk) (z: Z) : sk :=
+  mk_sk s.(k_schema) s.(k_type) s.(k_enum) s.(k_const) s.(k_format) s.(k_title) s.(k_description) s.(k_anyOf) s.(k_ref) s.(k_defs) s.(k_default) s.(k_props) s.(k_addl) s.(k_pnames) s.(k_prefix) s.(k_items) s.(k_multipleOf) s.(k_maximum) s.(k_exMax) s.(k_minimum) s.(k_exMin) (Some z) s.(k_minLength) s.(k_pattern) s.(k_maxItems) s.(k_minItems) s.(k_unique) s.(k_maxProps) s.(k_minProps) s.(k_required).
+Definition setn_minLength (s: sk) (z: Z) : sk :=
+  mk_sk s.(k_schema) s.(k_type) s.(k_enum) s.(k_const) s.(k_format) s.(k_title) s.(k_description) s.(k_anyOf) s.(k_ref) s.(k_defs) s.(k_default) s.(k_props) s.(k_addl) s.(k_pnames) s.(k_prefix) s.(k_items) s.(k_multipleOf) s.(k_maximum) s.(k_exMax) s.(k_minimum) s.(k_exMin) s.(k_maxLength) (Some z) s.(k_pattern) s.(k_maxItems) s.(k_minItems) s.(k_unique) s.(k_maxProps) s.(k_minProps) s.(k_required).
+Definition setn_maxItems (s: sk) (z: Z) : sk :=
+  mk_sk s.(k_schema) s.(k_type) s.(k_enum) s.(k_const) s.(k_format) s.(k_title) s.(k_description) s.(k_anyOf) s.(k_ref) s.(k_defs) s.(k_default) s.(k_props) s.(k_addl) s.(k_pnames) s.(k_prefix) s.(k_items) s.(k_multipleOf) s.(k_maximum) s.(k_exMax) s.(k_minimum) s.(k_exMin) s.(k_maxLength) s.(k_minLength) s.(k_pattern) (Some z) s.(k_minItems) s.(k_unique) s.(k_maxProps) s.(k_minProps) s.(k_required).
+Definition setn_minItems (s: sk) (z: Z) : sk :=
+  mk_sk s.(k_schema) s.(k_type) s.(k_enum) s.(k_const) s.(k_format) s.(k_title) s.(k_description) s.(k_anyOf) s.(k_ref) s.(k_defs) s.(k_default) s.(k_props) s.(k_addl) s.(k_pnames) s.(k_prefix) s.(k_items) s.(k_multipleOf) s.(k_maximum) s.(k_exMax) s.(k_minimum) s.(k_exMin) s.(k_maxLength) s.(k_minLength) s.(k_pattern) s.(k_maxItems) (Some z) s.(k_unique) s.(k_maxProps) s.(k_minProps) s.(k_required).
+Definition setn_maxProps (s: sk) (z: Z) : sk :=
+  mk_sk s.(k_schema) s.(k_type) s.(k_enum) s.(k_const) s.(k_format) s.(k_title) s.(k_description) s.(k_anyOf) s.(k_ref) s.(k_defs) s.(k_default) s.(k_props) s.(k_addl) s.(k_pnames) s.(k_prefix) s.(k_items) s.(k_multipleOf) s.(k_maximum) s.(k_exMax) s.(k_minimum) s.(k_exMin) s.(k_maxLength) s.(k_minLength) s.(k_pattern) s.(k_maxItems) s.(k_minItems) s.(k_unique) (Some z) s.(k_minProps) s.(k_required).
+Definition setn_minProps (s: sk) (z: Z) : sk :=
+  mk_sk s.(k_schema) s.(k_type) s.(k_enum) s.(k_const) s.(k_format) s.(k_title) s.(k_description) s.(k_anyOf) s.(k_ref) s.(k_defs) s.(k_default) s.(k_props) s.(k_addl) s.(k_pnames) s.(k_prefix) s.(k_items) s.(k_multipleOf) s.(k_maximum) s.(k_exMax) s.(k_minimum) s.(k_exMin) s.(k_maxLength) s.(k_minLength) s.(k_pattern) s.(k_maxItems) s.(k_minItems) s.(k_unique) s.(k_maxProps) (Some z) s.(k_required).
+Definition set_pattern (s: sk) (p: string) : sk :=
+  mk_sk s.(k_schema) s.(k_type) s.(k_enum) s.(k_const) s.(k_format) s.(k_title) s.(k_description) s.(k_anyOf) s.(k_ref) s.(k_defs) s.(k_default) s.(k_props) s.(k_addl) s.(k_pnames) s.(k_prefix) s.(k_items) s.(k_multipleOf) s.(k_maximum) s.(k_exMax) s.(k_minimum) s.(k_exMin) s.(k_maxLength) s.(k_minLength) (Some p) s.(k_maxItems) s.(k_minItems) s.(k_unique) s.(k_maxProps) s.(k_minProps) s.(k_required).
+Definition set_unique (s: sk) (b: bool) : sk :=
+  mk_sk s.(k_schema) s.(k_type) s.(k_enum) s.(k_const) s.(k_format) s.(k_title) s.(k_description) s.(k_anyOf) s.(k_ref) s.(k_defs) s.(k_default) s.(k_props) s.(k_addl) s.(k_pnames) s.(k_prefix) s.(k_items) s.(k_multipleOf) s.(k_maximum) s.(k_exMax) s.(k_minimum) s.(k_exMin) s.(k_maxLength) s.(k_minLength) s.(k_pattern) s.(k_maxItems) s.(k_minItems) (Some b) s.(k_maxProps) s.(k_minProps) s.(k_required).
+
+(* which group of constraint annotations a type takes: on_number, str, apply_array_constraints,
+   apply_object_constraints, on_pathlike *)
+Inductive akind := AKNum | AKStr | AKArr | AKObj | AKPath | AKNone.
+Definition akind_of (t: ty) : akind :=
+  match t with
+  | TInt | TFloat => AKNum
+  | TStr => AKStr
+  | TList _ | TSet _ | TTuple _ | TNamed _ _ _ _ => AKArr
+  | TDict _ | TMap _ _ => AKObj
+  | TLeaf _ (Some "path") _ => AKPath
+  | _ => AKNone
+  end.
+Definition apply_ann (c: ann) (k: akind) (s: sk) : sk :=
+  match c, k with
+  | ANum AMaximum z, AKNum => setn_maximum s z
+  | ANum AMinimum z, AKNum => setn_minimum s z
+  | ANum AExMax z, AKNum => setn_exMax s z
+  | ANum AExMin z, AKNum => setn_exMin s z
+  | ANum AMultipleOf z, AKNum => setn_multipleOf s z
+  | ANum AMinLength z, (AKStr | AKPath) => setn_minLength s z
+  | ANum AMaxLength z, (AKStr | AKPath) => setn_maxLength s z
+  | APattern p, AKStr => set_pattern s p
+  | ANum AMinItems z, AKArr => setn_minItems s z
+  | ANum AMaxItems z, AKArr => setn_maxItems s z
+  | AUnique b, AKArr => set_unique s b
+  | ANum AMinProps z, AKObj => setn_minProps s z
+  | ANum AMaxProps z, AKObj => setn_maxProps s z
+  | _, _ => s
+  end.
+Fixpoint apply_anns (cs: list ann) (k: akind) (s: sk) : sk :=
+  match cs with [] => s | c :: r => apply_anns r k (apply_ann c k s) end.
+(* the metaschema wants non-negative lengths / counts *)
+Definition ann_ok (c: ann) : bool :=
+  match c with
+  | ANum (AMinLength | AMaxLength | AMinItems | AMaxItems | AMinProps | AMaxProps) z => (0 <=? z)%Z
+  | _ => true
+  end.
 
 Definition formats : list string :=
   ["date-time"; "date"; "time"; "duration"; "email"; "idn-email"; "hostname"; "idn-hostname"; "ipv4"; "ipv6"; "uri";
@@ -284,7 +383,7 @@ Fixpoint req_keys (names: list string) (req: list bool) : list string :=
   end.
 
 (* _get_schema_or_none looks at the class of the RESULT (EmptyJSONSchema), which a wrapper passes through *)
-Fixpoint is_any (t: ty) : bool := match t with TAny => true | TWrap a => is_any a | _ => false end.
+Fixpoint is_any (t: ty) : bool := match t with TAny => true | TWrap a | TAnn _ a => is_any a | _ => false end.
 Definition or_none (t: ty) (s: sk) : option js := if is_any t then None else Some (render s).
 
 (* ---- results: value, fuel exhausted (= RecursionError of the implementation), error ---- *)
@@ -354,7 +453,14 @@ Section Gen.
           | SFuel => SFuel | SErr => SErr end
       | TDict a => fun st =>
           match on_ty a st with
-          | SOk (s, st1) => SOk (dict_sk (or_none a s), st1)
+          | SOk (s, st1) => SOk (dict_sk (or_none a s) (Some (render (ty_sk "string"))), st1)
+          | SFuel => SFuel | SErr => SErr end
+      | TMap k a => fun st =>      (* keyword arguments are evaluated in order: additionalProperties (value type) first *)
+          match on_ty a st with
+          | SOk (s, st1) =>
+              match on_ty k st1 with
+              | SOk (sk', st2) => SOk (dict_sk (or_none a s) (or_none k sk'), st2)
+              | SFuel => SFuel | SErr => SErr end
           | SFuel => SFuel | SErr => SErr end
       | TTuple ts => fun st =>
           match map_st on_ty ts [] st with
@@ -378,6 +484,12 @@ Section Gen.
           if is_type_name tp && match fmt with Some f => str_mem f formats | None => true end
           then SOk (leaf_sk tp fmt pat, st) else SErr
       | TOpaque _ => fun st => SErr
+      | TAnn cs a => fun st =>
+          if forallb ann_ok cs
+          then match on_ty a st with
+               | SOk (s, st1) => SOk (apply_anns cs (akind_of a) s, st1)
+               | SFuel => SFuel | SErr => SErr end
+          else SErr
       | TEnum lit vals => fun st => SOk (enum_sk lit vals, st)
       | TTyped names ts req => fun st =>
           if str_nodup names && Nat.eqb (List.length names) (List.length ts)
@@ -429,7 +541,8 @@ End Gen.
 (* ---- classes mentioned by a type ---- *)
 Fixpoint classes_of (t: ty) : list string :=
   match t with
-  | TList a | TSet a | TDict a | TWrap a => classes_of a
+  | TList a | TSet a | TDict a | TWrap a | TAnn _ a => classes_of a
+  | TMap k a => (classes_of a ++ classes_of k)%list
   | TTuple ts | TUnion ts | TNamed _ _ ts _ | TTyped _ ts _ => (fix go (l: list ty) := match l with [] => [] | x :: r => (classes_of x ++ go r)%list end) ts
   | TClass c => [c]
   | _ => []
@@ -439,6 +552,8 @@ Fixpoint classes_of (t: ty) : list string :=
 Fixpoint ty_ok (t: ty) : bool :=
   match t with
   | TList a | TSet a | TDict a | TWrap a => ty_ok a
+  | TAnn cs a => forallb ann_ok cs && ty_ok a
+  | TMap k a => ty_ok a && ty_ok k
   | TTuple ts => (fix go (l: list ty) := match l with [] => true | x :: r => ty_ok x && go r end) ts
   | TUnion ts => match ts with [] => false | _ => (fix go (l: list ty) := match l with [] => true | x :: r => ty_ok x && go r end) ts end
   | TNamed _ names ts _ =>
